@@ -57,11 +57,11 @@ std::string msg_class(const std::string &m)
 	return r;
 }
 
-VerifyOut lib_verify(Ctx &ctx, jwt_checker_t *c, const char *token, bool c14, int64_t fail_at, bool fail_from)
+VerifyOut lib_verify(Ctx &ctx, jwt_checker_t *c, const char *token, bool c14, int64_t fail_at, bool fail_from, int64_t fail_at2)
 {
 	VerifyOut o;
 	{
-		Armed a(fail_at, fail_from);
+		Armed a(fail_at, fail_from, fail_at2);
 		o.ret = jwt_checker_verify(c, token);
 		o.alloc_reqs = a.reqs();
 		o.faults_fired = a.fired();
@@ -98,12 +98,12 @@ VerifyOut lib_verify(Ctx &ctx, jwt_checker_t *c, const char *token, bool c14, in
 	return o;
 }
 
-GenerateOut lib_generate(Ctx &ctx, jwt_builder_t *b, bool c14, int64_t fail_at, bool fail_from)
+GenerateOut lib_generate(Ctx &ctx, jwt_builder_t *b, bool c14, int64_t fail_at, bool fail_from, int64_t fail_at2)
 {
 	GenerateOut o;
 	char *t;
 	{
-		Armed a(fail_at, fail_from);
+		Armed a(fail_at, fail_from, fail_at2);
 		t = jwt_builder_generate(b);
 		o.alloc_reqs = a.reqs();
 		o.faults_fired = a.fired();
